@@ -1356,7 +1356,7 @@ func closureOrdinal(fn *ssa.Function) int {
 // (checked by executing its body on fresh symbolic arguments); HOF contracts then use e instead of the body.
 func (e *Engine) checkClosureSpec(fc *fnCtx, st *State, clo *Closure, mk *ssa.MakeClosure) {
 	cfn := clo.Fn.(*ssa.Function)
-	cl, ok := fc.contract.Closures[closureOrdinal(cfn)]
+	cl, ok := fc.contract.Closures[closureBaseOrdinal(e.w, fc.fn, closureOrdinal(cfn))]
 	if !ok || e.droppedClause[cl.Text+fmt.Sprintf(" @closure[%d]", closureOrdinal(cfn))] {
 		return
 	}
